@@ -112,6 +112,7 @@ type Worker struct {
 	locks     map[string]int
 	hashCalls []hashCall
 	mergeDepth int
+	cur        *frame
 }
 
 
@@ -339,6 +340,7 @@ func (w *Worker) RunPath(entry *ssa.Function, prefix []Decision) (res *PathResul
 	w.tokenSeq = 0
 	w.replaying = len(prefix) > 0
 	w.locks = map[string]int{}
+	w.cur = nil
 	w.hashCalls = w.hashCalls[:0]
 	w.res = &PathResult{Sites: map[string]*AssertSite{}, Covers: map[string]int{}, Funcs: map[string]int{}, KnownHit: map[string]bool{}}
 	w.res.Sites["$branch"] = &AssertSite{Msg: "branch feasibility"}
@@ -352,6 +354,9 @@ func (w *Worker) RunPath(entry *ssa.Function, prefix []Decision) (res *PathResul
 			switch r := r.(type) {
 			case pathAbort:
 				res.Kind, res.Msg = r.Kind, r.Msg
+				if r.Kind == "unsupported" || r.Kind == "unwind" || r.Kind == "budget" {
+					res.Msg += " [at " + w.targetStack() + "]"
+				}
 			case targetPanic:
 				// an uncaught Go panic in the code under test
 				res.Kind = "panic"
@@ -359,7 +364,7 @@ func (w *Worker) RunPath(entry *ssa.Function, prefix []Decision) (res *PathResul
 				w.reportViolation("panic", res.Msg, "", w.TF.True, "")
 			default:
 				res.Kind = "internal"
-				res.Msg = fmt.Sprintf("engine error: %v\n%s", r, shortStack())
+				res.Msg = fmt.Sprintf("engine error: %v\n  target stack: %s\n%s", r, w.targetStack(), shortStack())
 			}
 		}
 		if len(w.pc) > 0 && res.SamplePC == "" {
@@ -412,10 +417,23 @@ func shortStack() string {
 	buf := make([]byte, 1<<16)
 	n := runtimeStack(buf)
 	lines := strings.Split(string(buf[:n]), "\n")
-	if len(lines) > 40 {
-		lines = lines[:40]
+	var out []string
+	for i := 0; i+1 < len(lines) && len(out) < 8; i++ {
+		l := lines[i]
+		if strings.HasPrefix(l, "gosmt/sym.") && !strings.Contains(l, "run.func1") && !strings.Contains(l, "runtimeStack") && !strings.Contains(l, "shortStack") && !strings.Contains(l, "RunPath.func1") {
+			out = append(out, "    "+l+" "+strings.TrimSpace(lines[i+1]))
+		}
 	}
-	return strings.Join(lines, "\n")
+	return strings.Join(out, "\n")
+}
+
+// targetStack renders the call stack of the code under test.
+func (w *Worker) targetStack() string {
+	var parts []string
+	for f := w.cur; f != nil && len(parts) < 12; f = f.caller {
+		parts = append(parts, f.fn.String())
+	}
+	return strings.Join(parts, " <- ")
 }
 
 // ---------- exploration ----------
@@ -624,7 +642,9 @@ func (w *Worker) ensureInit(pkg *ssa.Package) {
 			case targetPanic:
 				initWarnings.Store(pkg.Pkg.Path(), "panic: "+w.panicString(r.V))
 			default:
-				panic(r)
+				// an engine limitation inside an initialiser: the remaining
+				// globals of that package stay zero (reported as a warning)
+				initWarnings.Store(pkg.Pkg.Path(), fmt.Sprintf("engine: %v", r))
 			}
 		}
 	}()
